@@ -371,7 +371,23 @@ def prepare_arguments(mod) -> dict:
     return out
 
 
-def call_functions(mod, only=None, prepared=None, jitter: float = 1.0) -> dict:
+def _rel_diff(a, b) -> float:
+    """Largest relative difference between two outcomes of the same shape (inf if shapes differ)."""
+    if isinstance(a, list) and isinstance(b, list) and len(a) == len(b):
+        if a and a[0] in ("q", "f") and len(a) == 4:
+            za, zb = complex(a[1], a[2]), complex(b[1], b[2])
+            if za != za or zb != zb:
+                return 0.0 if (za != za) == (zb != zb) else float("inf")
+            return abs(za - zb) / max(abs(za), abs(zb), 1e-300)
+        return max([_rel_diff(x, y) for x, y in zip(a, b)] or [0.0])
+    return 0.0 if a == b else float("inf")
+
+
+def call_functions(mod, only=None, prepared=None, jitter: float = 1.0, conditioning: bool = False) -> dict:
+    """Outcome of every guarded function on its argument tuple. With `conditioning` each returning
+    function is called once more with arguments perturbed by 1e-13 (relative): if the result moves
+    by more than 1e-7 the function is numerically ill-conditioned at these arguments (e.g. a phase
+    E*t/hbar of 1e34 rad) and its floating-point value is rounding noise, not meaning."""
     out = {}
     for fname in sorted(vars(mod)):
         if fname.startswith("_"):
@@ -398,6 +414,14 @@ def call_functions(mod, only=None, prepared=None, jitter: float = 1.0) -> dict:
             with timebox(CALL_WALL_S):
                 ret = func(**args)
                 out[fname] = ["ret", _outcome(ret)]
+            if conditioning and prepared is None:
+                try:
+                    with timebox(CALL_WALL_S):
+                        ret2 = func(**build_arguments(mod.__name__, fname, func, jitter * (1 + 1e-13)))
+                    if _rel_diff(out[fname][1], _outcome(ret2)) > 1e-7:
+                        out[fname].append("ill-conditioned")
+                except Exception:  # pylint: disable=broad-except
+                    out[fname].append("ill-conditioned")
         except _Timeout:
             out[fname] = ["timeout"]
         except RecursionError:
@@ -422,7 +446,7 @@ def try_import(modname: str):
         return None, f"{type(ex).__name__}: {str(ex)[:160]} @ {where}"
 
 
-def observe(modname: str, with_calls: bool = True, prepared=None) -> dict:
+def observe(modname: str, with_calls: bool = True, prepared=None, conditioning: bool = False) -> dict:
     import sympy as sp  # pylint: disable=import-outside-toplevel
     from sympy.core.function import FunctionClass  # pylint: disable=import-outside-toplevel
     mod, err = try_import(modname)
@@ -446,7 +470,7 @@ def observe(modname: str, with_calls: bool = True, prepared=None) -> dict:
             syms[attr] = [str(v.display_name), str(getattr(v, "display_latex", "")), str(v.dimension), str(ass), type(v).__name__]
     out = {"import": "ok", "equations": eqs, "symbols": syms}
     if with_calls:
-        out["calls"] = call_functions(mod, prepared=prepared)
+        out["calls"] = call_functions(mod, prepared=prepared, conditioning=conditioning)
     return out
 
 
